@@ -8,3 +8,5 @@ git -C $WT apply $DIFF || { echo "APPLY FAILED"; exit 2; }
 PYTHONPATH=$WT/src /venv/bin/python -W ignore $DEMO >/dev/null 2>&1; echo "demo after: exit $?"
 VERIF_REPO=$WT /venv/bin/python harness/check.py $P --tier quick 2>&1 | grep -v condarc | grep -e VIOLATION -e "tier=" -e "broken:" | cut -c1-300
 git -C $WT checkout -q -- .
+# the run above regenerated coq/gen/ from the changed worktree: put back what /repo says
+VERIF_NO_EVIDENCE=1 /venv/bin/python harness/regen.py >/dev/null 2>&1 || git -C /verif checkout -q -- coq/gen
